@@ -4,6 +4,7 @@ use std::collections::{BTreeMap, BTreeSet};
 use std::fmt::Debug;
 use std::fs::{File, OpenOptions, create_dir, hard_link, metadata, read_dir, remove_file, rename};
 use std::io::{BufRead, BufReader, Write};
+use std::os::unix::fs::MetadataExt;
 use std::path::{Path, PathBuf};
 
 use biometrics::{Collector, Counter};
@@ -311,10 +312,15 @@ impl Manifest {
     pub fn rollover(&mut self) -> Result<(), SError> {
         self.check_poison()?;
         let edit = Self::to_edit(&self.strs, &self.info);
-        let next_id = self.last_rollover;
-        self.last_rollover += 1;
-        let back = BACKUP(&self.root, next_id);
-        self.poison(hard_link(MANIFEST(&self.root), back))?;
+        // A rollover that died after linking its backup leaves the log and the newest backup as
+        // one file.  That backup is this rollover's backup too:  linking the same log again under
+        // the next number would add a fragment that does not continue its predecessor.
+        if !self.newest_backup_is_current_log() {
+            let next_id = self.last_rollover;
+            self.last_rollover += 1;
+            let back = BACKUP(&self.root, next_id);
+            self.poison(hard_link(MANIFEST(&self.root), back))?;
+        }
         let tmp = TEMPORARY(&self.root);
         if tmp.exists() {
             self.poison(remove_file(&tmp))?
@@ -457,6 +463,17 @@ impl Manifest {
             }
         }
         Ok(())
+    }
+
+    fn newest_backup_is_current_log(&self) -> bool {
+        if self.last_rollover <= 1 {
+            return false;
+        }
+        let back = BACKUP(&self.root, self.last_rollover - 1);
+        match (metadata(MANIFEST(&self.root)), metadata(back)) {
+            (Ok(log), Ok(back)) => log.dev() == back.dev() && log.ino() == back.ino(),
+            _ => false,
+        }
     }
 
     // A failed write may have left part of an edit in the file, and the in-memory state no longer
